@@ -33,6 +33,8 @@ def run_check(pid, prop, tier, seed):
     if not okc: broken.append("constants translator failed: " + outc.strip()[-300:])
     hyg = C.coq_hygiene()
     if hyg: broken.append("forbidden vernacular: " + "; ".join(hyg[:5]))
+    st = C.source_state_scan()
+    if st: broken.append("library source now holds mutable global / thread-local state the pure model does not represent: " + "; ".join(st[:4]))
     okp, plog, pinned = C.coq_property(pid)
     closed, axioms = C.parse_assumptions(plog)
     if not okp:
@@ -65,6 +67,9 @@ def run_check(pid, prop, tier, seed):
             S.run([r[2] for r in rows], expect=[None if r[0] == "any" else r[0] for r in rows], label=["corpus:" + r[1] for r in rows])
     stats = prop.generate(S, tier) or {}
     broken += getattr(S, "broken", [])
+    # ---- 3b. history independence (single thread, other orders)
+    hn, hfails = S.history_pass(1500 if tier == "quick" else 6000)
+    cov["history_pass_evaluations"] = hn
     # ---- 4. model on the same cases
     model = S.run_model()
     disagreements = []; sweep_fail = []; seen = set(); nontrivial = set()
@@ -83,6 +88,7 @@ def run_check(pid, prop, tier, seed):
             sweep_fail.append({"case": line, "impl": r.raw[:600], "expected": exp if not callable(exp) else "predicate", "label": label})
     for f in getattr(S, "extra_failures", []):
         sweep_fail.append(f)
+    sweep_fail += hfails
     cov["evaluations"] = len(S.cases)
     cov["distinct_nontrivial"] = len(nontrivial)
     cov["rule"] = prop.RULE
